@@ -191,6 +191,7 @@ pub const INFO: PropInfo = PropInfo {
     needs_cli: false,
     needs_checked: false,
     max_shards: 16,
+    shrink_iters: 400,
     watchdog_s: (900, 7200),
     run,
     replay,
